@@ -12,6 +12,7 @@
 //        flags: 1 pre-populated target, 2 barrier before serialize (otherwise the inserts
 //        are still pending), 4 strings may contain NUL, 8 only rank 0 inserts, 16 non-empty
 //        default value, 32 short alphabet (many duplicates / shared prefixes), 64 directed: exactly the keys "a\\0b" and "a\\0c"
+//   leak                                      observation: can a post-serialize insert reach another rank's image?
 //   tok  <hex token> ...                      cereal JSONInputArchive on `{"value0": <token>}`
 #include "hcommon.hpp"
 #include <ygm/comm.hpp>
@@ -313,6 +314,20 @@ static int run_ser(ygm::comm& world, int argc, char** argv) {
   return 2;
 }
 
+// observation only (not part of the property): serialize has no barrier AFTER the write, so an operation issued by a
+// rank that has already returned from serialize can still reach the image of a rank that is slower to leave the barrier
+static int run_leak(ygm::comm& world, int argc, char** argv) {
+  std::string fname = tmpdir() + "/leak.";
+  SBag a(world);
+  for (int i = 0; i < 3; ++i) a.async_insert("pre" + std::to_string(world.rank()) + "." + std::to_string(i));
+  a.serialize(fname);
+  if (world.rank0()) for (int d = 1; d < world.size(); ++d) a.async_insert("POST", d);
+  std::string img = slurp(fname + std::to_string(world.rank()));
+  hc::out(std::string("image-has-post ") + (img.find("POST") != std::string::npos ? "1" : "0"));
+  world.barrier();
+  return 0;
+}
+
 static int run_tok(ygm::comm& world, int argc, char** argv) {
   for (int i = 2; i < argc; ++i) {
     std::string tok = unhex(argv[i]);
@@ -334,5 +349,6 @@ extern "C" int sim_main(int argc, char** argv) {
   if (mode == "day") return run_day(world, argc, argv);
   if (mode == "ser") return run_ser(world, argc, argv);
   if (mode == "tok") return run_tok(world, argc, argv);
+  if (mode == "leak") return run_leak(world, argc, argv);
   return 2;
 }
